@@ -52,6 +52,33 @@ func NewProgram(prog *ssa.Program, repoPrefix, repoDir string, sizes types.Sizes
 	return P
 }
 
+// AddStub routes calls of the package-level function target (a datamon function that opens an
+// environment the engine cannot execute, e.g. an on-disk KV store) to the harness function repl of
+// the same package, in symbolic runs only: the native replay runs the real function.
+func (P *Program) AddStub(pkgPath, target, repl string) error {
+	for _, pkg := range P.Prog.AllPackages() {
+		if pkg.Pkg.Path() != pkgPath {
+			continue
+		}
+		tf, rf := pkg.Func(target), pkg.Func(repl)
+		if tf == nil || rf == nil {
+			return fmt.Errorf("stub %s -> %s: function not found in %s", target, repl, pkgPath)
+		}
+		if !types.Identical(tf.Signature, rf.Signature) {
+			return fmt.Errorf("stub %s -> %s: signatures differ", target, repl)
+		}
+		name := pkgPath + "." + target
+		P.apiFuncs[tf] = func(fr *frame, args []value) value {
+			if fr.i.ps != nil {
+				fr.i.ps.res.Stubs["stubbed: "+name+" -> "+repl] = true
+			}
+			return call(fr.i, fr.caller, 0, rf, args)
+		}
+		return nil
+	}
+	return fmt.Errorf("stub: package %s not loaded", pkgPath)
+}
+
 func (P *Program) allocGlobals(pkg *ssa.Package, into map[*ssa.Global]*value) {
 	for _, m := range pkg.Members {
 		if g, ok := m.(*ssa.Global); ok {
